@@ -54,6 +54,10 @@ CHECKS = {
    text="per sampled workload item every collaborator point of the fault-free run (capped at 30/60) x catalogue classes is executed as a single-fault plan, plus seeded multi-fault plans; each plan as differential twin runs (glom_debug / plain / default x skip_exc) in cold state; clauses: class kept, args kept, GlomError-ness, unrebuildable identity, BaseException untouched, documented subtype per site kind, debug identity, selective default.",
    note="trusts: site kind read from glom frame names/locals on the stack at the fault (unknown stack disables only the documented-subtype clause); determinism of twin runs (self-tested)",
    technique="deterministic simulation with enumerated single-fault injection at every collaborator point + seeded multi-fault plans, differential twin-run oracle"),
+ "C05": dict(level="exploration", engine="faultsim", design="4/C05",
+   text="per sampled spec tree every probe point of the fault-free run is failed in turn (absorbable and non-absorbable classes) plus multi-fault plans whose first faults are absorbed by enclosing Coalesce/Or/Switch; a spec-tree walker predicts the failure record from the same keyed plan; the real message is parsed structurally and the record must embed in it (root target, ancestors in order, innermost failing spec + target received, attempted branches with their errors); final line compared with a glom_debug twin run.",
+   note="trusts: models/trace_walker.py (evaluation order / who catches what for this grammar; model-vs-real outcome divergences are counted, never reported as violations); the check is an embedding, exact text and glyphs are not compared",
+   technique="deterministic simulation with enumerated single faults + absorbed-prefix fault sequences, reference-walker + structural trace embedding oracle"),
  "C06": dict(level="exploration", engine="histsim", design="4/C06",
    text="seeded histories (calls, repeats, cache floods with small Path._MAX_CACHE, PATH_STAR toggles, cache drops, registrations, Glommers, aborted calls by collaborator BaseException and by line crashes inside glom, interleaved pairs) in one long-lived private instance; each call compared with a cold instance, plus identity-preserving before/after snapshots of target, spec graph and scope mapping.",
    note="trusts: cold private instance of the same code as reference; snapshot walker (C-level access to containers, __dict__/__slots__ walk of spec objects)",
